@@ -70,7 +70,7 @@ class Driver:
         self.step_no = 0
         self.prev_state = None
 
-    def build(self, prog, crash=None, versions=None, probe=None, on_query=None, behaviour=None):
+    def build(self, prog, crash=None, versions=None, probe=None, on_query=None, behaviour=None, fault=None):
         """One build step.  Returns (impl, ref) outcomes, each ('ok', value) or
         ('exc', exception)."""
         w = self.w
@@ -87,16 +87,38 @@ class Driver:
             sr.on_query = lambda k, p, r: on_query('ref', k, p, r)
         if not w.bound:
             w.bind()
+        def root(b):
+            try:
+                return run_body(b, prog.body, si)
+            except BaseException:
+                # whatever follows is rollback: outside the fault model of C14
+                if fault is not None:
+                    fault.root_failed = True
+                raise
+
+        if fault is not None:
+            fault.arm(w.env, si)
         try:
-            v = self.FileBuilder.build_versioned(
-                w.cache, self.build_name, versions or {}, lambda b: run_body(b, prog.body, si))
+            v = self.FileBuilder.build_versioned(w.cache, self.build_name, versions or {}, root)
             impl = ('ok', v)
         except (PathAbort, HarnessError):
             raise
         except Exception as e:
             impl = ('exc', e)
+        finally:
+            if fault is not None:
+                fault.disarm(w.env)
+        if fault is not None:
+            # the reference: the API call in which the fault fired fails in setup, without any effect
+            # (a fault outside any build_file/subbuild call makes the whole build fail: handled by the caller)
+            sr.fail_setup = fault.sid
         self.prev_state = self.state.copy()
-        r = ref_build(w.ref, w.cache, self.state, lambda b: run_body(b, prog.body, sr))
+        if fault is not None and fault.fired is not None and fault.sid is None:
+            # the fault hit the build's own machinery (cache directory / cache backup / cache write): the whole
+            # build fails, the reference tree stays as it was before the build
+            r = ('exc', OSError(5, 'injected fault in the root build'), None)
+        else:
+            r = ref_build(w.ref, w.cache, self.state, lambda b: run_body(b, prog.body, sr))
         ref = (r[0], r[1])
         self.impl_calls = si.calls
         self.ref_calls = sr.calls
